@@ -502,10 +502,16 @@ Definition find_layerstate (c : cfgT) (f : fsT) (ld : ldefs) (l : layer) : layer
         let '(num, bad, missing) := acc in
         if negb (exists_ f (x_mount x)) then (num, bad, true)
         else if is_abs (x_source x) && negb (exists_ f (x_source x))
-                && negb (in_any_layer_dir 64 (c_layers c) (x_source x)) then (num, bad, true)
+                && negb (in_any_layer_dir 64 (c_layers c) (x_source x))
+        then (num, bad || match get_mount ms (x_mount x) with Some _ => true | None => false end, true)
         else match get_mount ms (x_mount x) with
              | None => acc
-             | Some mnt => (num + 1, bad || negb (source_is_expected ds mnt (x_source x)), missing)
+             | Some mnt =>
+               let is_bind := beq (x_fstype x) (bs "bind") || beq (x_fstype x) (bs "rbind") in
+               (num + 1,
+                bad || negb (source_is_expected ds mnt (x_source x))
+                    || (negb is_bind && negb (beq (m_fstype mnt) (x_fstype x))),
+                missing)
              end in
       let '(num, bad, missing) := fold_left step xs (num0, false, false) in
       let estep := fun (acc : bool * bool) (x : xmount) =>
@@ -557,12 +563,12 @@ Definition probe_layer (c : cfgT) (f : fsT) (um : users_map) (ld : ldefs) (n : b
   match lm_get (ld_map ld) n with
   | None => ld
   | Some l =>
-    if l_state l =? st_error then ld else
     let l := classify_users c l (users_of um n) in
     let l := set_kmounts l (mounts_at_or_below (ld_probe ld) (build_path c l)) in
     let derived := match l_base l with [] => false | _ => true end in
     let l' :=
-      if negb (is_dir f (build_path c l)) then set_state l st_incomplete
+      if l_state l =? st_error then l
+      else if negb (is_dir f (build_path c l)) then set_state l st_incomplete
       else if derived && (negb (is_dir f (work_path c l)) || negb (is_dir f (upper_path c l)))
       then set_state l st_incomplete
       else find_layerstate c f ld (set_state l st_complete) in
@@ -774,7 +780,8 @@ Definition makedirs e (c : cfgT) (ld : ldefs) (name : bytes) : M ldefs :=
                     ([build_path c l] ++ match l_base l with [] => [] | _ => [work_path c l; upper_path c l] end) in
       mapM_ (fs_mkdir e) need ;;;
       f' <- get_fs ;;
-      ret (set_layer ld (find_layerstate c f' ld l))
+      let l1 := if (l_state l =? st_incomplete) && negb (e_pretend e) then set_state l st_complete else l in
+      ret (set_layer ld (find_layerstate c f' ld l1))
     else ret ld
   end.
 
@@ -797,21 +804,22 @@ Definition mount_one e (c : cfgT) (ld : ldefs) (name : bytes) : M ldefs :=
     guard (negb (l_state l <? st_mountable)) ;;;
     let builddir := build_path c l in
     let ms := pr_mounts (ld_probe ld) in
-    (match l_base l with
-     | [] => ret tt
-     | b0 =>
-       match get_mount ms builddir with
-       | Some _ => ret tt
-       | None =>
-         match lm_get (ld_map ld) b0 with
-         | None => panic
-         | Some bl =>
-           fs_mount e overlay builddir overlay
-             (bs "lowerdir=" ++ build_path c bl ++ bs ",upperdir=" ++ upper_path c l
-              ++ bs ",workdir=" ++ work_path c l)
-         end
-       end
-     end) ;;;
+    ld <- (match l_base l with
+           | [] => ret ld
+           | b0 =>
+             match get_mount ms builddir with
+             | Some _ => ret ld
+             | None =>
+               match lm_get (ld_map ld) b0 with
+               | None => panic
+               | Some bl =>
+                 fs_mount e overlay builddir overlay
+                   (bs "lowerdir=" ++ build_path c bl ++ bs ",upperdir=" ++ upper_path c l
+                    ++ bs ",workdir=" ++ work_path c l) ;;;
+                 refresh_mounts c ld
+               end
+             end
+           end) ;;
     match expand_config_mounts c (ld_map ld) l with
     | None => fail
     | Some xs =>
@@ -963,13 +971,19 @@ Inductive command :=
 | CRename (a b0 : bytes) | CRebase (a b0 : bytes) | CMkdirs (a : bytes) | CMount (a : bytes)
 | CUmount (a : bytes) (all : bool) | CShake | CChroot (a : bytes) | CProbe
 (* not layercake: somebody mounts / unmounts by hand (used to build prior states) *)
-| CKMount (src tgt fstype : bytes) (flags : N) (data : bytes) | CKUmount (tgt : bytes).
+| CKMount (src tgt fstype : bytes) (flags : N) (data : bytes) | CKUmount (tgt : bytes)
+| CEdit (p content : bytes).          (* somebody overwrites a file by hand *)
 
 Definition run_command e (c : cfgT) (um : users_map) (cmd : command) : M (option ldefs) :=
   match cmd with
   | CInit => init_base e c ;;; ret None
   | CKMount s t ty fl d => apply_op (OMount s t ty fl d) ;;; ret None
   | CKUmount t => apply_op (OUmount t 0) ;;; ret None
+  | CEdit p x => f <- get_fs ;;
+                 match open_trunc f p with
+                 | FOk f' => put_fs (append_file f' p x) ;;; ret None
+                 | FErr => fail
+                 end
   | _ =>
     f <- get_fs ;;
     guard (base_set_up c f) ;;;
